@@ -300,7 +300,7 @@ func first(a, _ []byte) []byte { return a }
 //@ func (*node256).addChild
 //@   requires n256 != nil && atype(n256) == typeid(node256) && Inv256(n256)
 //@   requires n256.children[b].pointer == nil && child.pointer != nil
-//@   ensures[view] forall(x, 0, 256, lookP256(n256, x) == ite(x == b, child.pointer, old(lookP256(n256, x))) && lookT256(n256, x) == ite(x == b, child.tag, old(lookT256(n256, x))))
+//@   ensures[view] forallp(x, 0, 256, lookP256(n256, x) == ite(x == b, child.pointer, old(lookP256(n256, x))) && lookT256(n256, x) == ite(x == b, child.tag, old(lookT256(n256, x))))
 //@   ensures[inv] Inv256(n256)
 //@   ensures[hdr] hdrSame(n256, n256)
 //@   ensures[frame] frame(n256)
@@ -309,7 +309,7 @@ func first(a, _ []byte) []byte { return a }
 //@ func (*node48).addChild
 //@   requires n48 != nil && atype(n48) == typeid(node48) && Inv48(n48) && refIs(ref, n48, 2)
 //@   requires n48.keys[b] == 0 && child.pointer != nil
-//@   ensures[view] forall(x, 0, 256, lookP(*ref, x) == ite(x == b, child.pointer, old(lookP48(n48, x))) && lookT(*ref, x) == ite(x == b, child.tag, old(lookT48(n48, x))))
+//@   ensures[view] forallp(x, 0, 256, lookP(*ref, x) == ite(x == b, child.pointer, old(lookP48(n48, x))) && lookT(*ref, x) == ite(x == b, child.tag, old(lookT48(n48, x))))
 //@   ensures[inv] typeOK(*ref) && InvRef(*ref)
 //@   ensures[hdr] hdrSame((*ref).pointer, n48)
 //@   ensures[replaced] (*ref).pointer == n48 || (fresh((*ref).pointer) && Zero48(n48))
@@ -328,7 +328,7 @@ func first(a, _ []byte) []byte { return a }
 //@ func (*node16).addChild
 //@   requires n16 != nil && atype(n16) == typeid(node16) && Inv16(n16) && refIs(ref, n16, 1)
 //@   requires lookP16(n16, b) == nil && child.pointer != nil
-//@   ensures[view] forall(x, 0, 256, lookP(*ref, x) == ite(x == b, child.pointer, old(lookP16(n16, x))) && lookT(*ref, x) == ite(x == b, child.tag, old(lookT16(n16, x))))
+//@   ensures[view] forallp(x, 0, 256, lookP(*ref, x) == ite(x == b, child.pointer, old(lookP16(n16, x))) && lookT(*ref, x) == ite(x == b, child.tag, old(lookT16(n16, x))))
 //@   ensures[inv] typeOK(*ref) && InvRef(*ref)
 //@   ensures[hdr] hdrSame((*ref).pointer, n16)
 //@   ensures[replaced] (*ref).pointer == n16 || (fresh((*ref).pointer) && Zero16(n16))
@@ -344,7 +344,7 @@ func first(a, _ []byte) []byte { return a }
 //@ func (*node4).addChild
 //@   requires n4 != nil && atype(n4) == typeid(node4) && Inv4(n4) && refIs(ref, n4, 0)
 //@   requires lookP4(n4, b) == nil && child.pointer != nil
-//@   ensures[view] forall(x, 0, 256, lookP(*ref, x) == ite(x == b, child.pointer, old(lookP4(n4, x))) && lookT(*ref, x) == ite(x == b, child.tag, old(lookT4(n4, x))))
+//@   ensures[view] forallp(x, 0, 256, lookP(*ref, x) == ite(x == b, child.pointer, old(lookP4(n4, x))) && lookT(*ref, x) == ite(x == b, child.tag, old(lookT4(n4, x))))
 //@   ensures[inv] typeOK(*ref) && InvRef(*ref)
 //@   ensures[hdr] hdrSame((*ref).pointer, n4)
 //@   ensures[replaced] (*ref).pointer == n4 || (fresh((*ref).pointer) && Zero4(n4))
